@@ -329,6 +329,18 @@ def unreachable(name):
     check(name, False)
 
 
+def regex_hook(names, fn):
+    """symbolic runs only"""
+    raise RuntimeError('regex_hook is only available in symbolic runs')
+
+
+def unmodelled(what=''):
+    """A model of a contract script was asked something it does not cover
+    (only meaningful in the symbolic run: proofs using models are
+    native=False)."""
+    raise RuntimeError('model gap: %s' % what)
+
+
 def trust(tag):
     pass
 
